@@ -50,7 +50,7 @@ def table(ctx):
         return ctx.cache["roundtrip"]
     mi = ModuleInterp(ctx, obj_types=(FakeRule,), extern={"fullmatch": lambda p, s: re.fullmatch(p, s)})
     try:
-        mi.call(ctx.func(f"{IR}.init_globals"))
+        mi.call(ctx.global_initialiser(IR, 10))
     except (Unsupported, Raised) as e:
         raise AnalysisError(f"cannot evaluate ir_block.init_globals abstractly: {e}")
     env = mi.module_env(IR)
